@@ -1,6 +1,7 @@
 import TPV.Model.Proto
 import TPV.Model.CondWorld
 import TPV.Model.CondWorldShared
+import TPV.Model.SharedObjects
 open TPV TPV.Proto TPV.CondExpr TPV.Cond
 
 /-! line protocol of C14: one history per line
@@ -72,6 +73,20 @@ def opS : P (OpS Rat) := do
   | "e" => do let cid ← nat; let fresh ← table; pure (.eval cid fresh)
   | t => throw s!"opS:{t}"
 
+partial def sexp : P TPV.Shared.SExp := do
+  match (← next) with
+  | "b" => do pure (.base (← nat))
+  | "p" => do let a ← sexp; let b ← sexp; pure (.prod a b)
+  | "s" => do let a ← sexp; let b ← sexp; pure (.sum a b)
+  | t => throw s!"sexp:{t}"
+
+def iterKey : P TPV.Shared.IterKey := do
+  match (← next) with
+  | "none" => pure .direct
+  | t => match t.toNat? with
+    | some k => pure (.step k)
+    | none => throw s!"key:{t}"
+
 def showErr : Err → String
   | .missingArg n => s!"err:missing-arg:{n}"
   | .space => "err:space"
@@ -124,6 +139,22 @@ def step (line : String) : String :=
         toString cid ++ ":" ++ ",".intercalate ((outsOf cid a.2).map showOut)
       let tags := res.1.dicts.map fun d => " ".intercalate (d.map fun p => p.1 ++ ":" ++ p.2.tag)
       return " ".intercalate outs ++ " | " ++ " ; ".intercalate tags ++ " | " ++ " ".intercalate alone
+    | "lens" => do
+      -- `lens <sizes of the base samplers> <expressions sampled at top level, in order>`:
+      -- after every sample: rows returned and `len()` of every base object
+      let sizes ← many nat
+      let es ← many sexp
+      let n : Nat → Nat := fun i => sizes.getD i 0
+      let rec go (st : TPV.Shared.Lens) : List TPV.Shared.SExp → List String
+        | [] => []
+        | e :: rest =>
+          let r := TPV.Shared.sample n e st 0
+          (toString r.2 ++ ":" ++ ",".intercalate ((List.range sizes.length).map fun i => toString (TPV.Shared.lenBase n r.1 i)))
+            :: go r.1 rest
+      return " ".intercalate (go (fun _ => none) es)
+    | "fs" => do
+      let ks ← many iterKey
+      return showNats (TPV.Shared.fsTrace TPV.Shared.fs0 ks)
     | _ => return "bad-op" : P String).run' (tokens line)
   match r with
   | .ok s => s
